@@ -314,6 +314,12 @@ def execute_run(run, tmpdir):
                     pool.append(child)
                     births.append(copy.deepcopy(ctr))
                     origin.append("child")
+            if op == "from_dotbracket" and raw is not None and len(pool) < 6:
+                # an object rebuilt from the receiver's own (memoised) notation is a derived object too: it
+                # joins the pool, and whatever it shares with that notation is exercised by later calls
+                pool.append(raw)
+                births.append(copy.deepcopy(entries_triples(raw)))
+                origin.append("child")
             if k >= 1 and (t in touched or aliased_touched):
                 coverage.append(rng.digest([mask, op, origin[t], has_iso, has_knot])[:16])
             touched.add(t)
